@@ -109,4 +109,22 @@ partial def parseDoc : SExp → Option (Doc × Bool)
     pure (Doc.node kind (if id == "-" then (if kind == .initial then "?initial" else "") else id) p.initAttr p.onentry p.onexit p.trans p.children, p.late)
   | _ => none
 
+mutual
+/-- states without an id are named `?<k>` by their pre-order position in the document as written -/
+partial def nameAnon : Doc → Nat → Doc × Nat
+  | .node k i a e x t cs, n =>
+    let i' := if i == "" && k != .scxml && k != .initial then s!"?{n}" else i
+    let (cs', n') := nameAnonList cs (n + 1)
+    (.node k i' a e x t cs', n')
+partial def nameAnonList : List Doc → Nat → List Doc × Nat
+  | [], n => ([], n)
+  | d :: ds, n =>
+    let (d', n1) := nameAnon d n
+    let (ds', n2) := nameAnonList ds n1
+    (d' :: ds', n2)
+end
+
+def parseDocNamed (s : SExp) : Option (Doc × Bool) :=
+  (parseDoc s).map (fun (d, late) => ((nameAnon d 0).1, late))
+
 end Driver
